@@ -10,7 +10,7 @@ import (
 
 func main() {
 	out := os.Args[1]
-	res, err := instrument.Run(instrument.Options{Repo: "/repo", Pkgs: []string{"cache", "server", "location", "upstream", "compress", "store"}, GoPkgs: []string{"server"}, Out: out})
+	res, err := instrument.Run(instrument.Options{Repo: "/repo", Pkgs: []string{"cache", "server", "location", "upstream", "compress", "store"}, GoPkgs: []string{"server", "cache", "compress", "location", "store"}, Out: out})
 	if err != nil {
 		fmt.Fprintln(os.Stderr, err)
 		os.Exit(2)
